@@ -153,8 +153,8 @@ func init() {
 							tol = 64 * 2.3e-16 * math.Max(math.Max(math.Abs(rg.min), math.Abs(rg.max)), math.Max(math.Abs(bottom), math.Abs(top)))
 							c.Count("inexact_halving_cases")
 						}
-						okLo := got[0] == lo || (dlo <= tol && (got[0] == lo-1 || got[0] == lo+1))
-						okHi := got[len(got)-1] == hi || (dhi <= tol && (got[len(got)-1] == hi-1 || got[len(got)-1] == hi+1))
+						okLo := got[0] == lo || (tol > 0 && dlo <= tol && (got[0] == lo-1 || got[0] == lo+1))
+						okHi := got[len(got)-1] == hi || (tol > 0 && dhi <= tol && (got[len(got)-1] == hi-1 || got[len(got)-1] == hi+1))
 						if !okLo || !okHi {
 							d["bottom"], d["top"], d["dist_lo"], d["dist_hi"], d["tol"] = bottom, top, dlo, dhi, tol
 							c.Violation("C17:voxel-to-bits:run-differs-from-exact-subdivision", d)
